@@ -915,7 +915,198 @@ def _sig_reads(cname, name, got, want, spec=None):
     return sig
 
 
+
+# ---------------------------------------------------------------------------------------------
+# EPW header setters used as the FIRST operation on a fresh EPW(path) (lazy import comes later)
+
+
+def _week(m, d):
+    from ladybug.analysisperiod import AnalysisPeriod
+    return AnalysisPeriod(m, d, 0, m, d + 6, 23)
+
+
+def _epw_value(setter, variant):
+    """A new argument object for an EPW header setter (built from plain numbers)."""
+    from ladybug.designday import DesignDay
+    if setter in ('typical_weeks', 'extreme_hot_weeks', 'extreme_cold_weeks'):
+        if variant == 0:
+            return {'C18 Week': _week(5, 1)}
+        if variant == 1:
+            return {}
+        return {'C18 Week A': _week(2, 3), 'C18 Week B': _week(9, 12)}
+    if setter == 'location':
+        from ladybug.location import Location
+        return Location('C18 City', 'ST', 'CT', 12.5 + variant, -33.25, -2, 44, 'st-%d' % variant, 'c18')
+    if setter == 'metadata':
+        return {'source': 'c18-%d' % variant, 'city': 'C18 City'}
+    keys = {'heating_design_condition_dictionary': 'HEATING_KEYS',
+            'cooling_design_condition_dictionary': 'COOLING_KEYS',
+            'extreme_design_condition_dictionary': 'EXTREME_KEYS'}
+    if setter in keys:
+        if variant == 1:
+            return {}
+        return dict((k, '%d.5' % (i + variant)) for i, k in enumerate(getattr(DesignDay, keys[setter])))
+    if setter == 'monthly_ground_temperature':
+        if variant == 1:
+            return {}
+        from ladybug.header import Header
+        from ladybug.analysisperiod import AnalysisPeriod
+        from ladybug.datacollection import MonthlyCollection
+        from ladybug.datatype.temperature import GroundTemperature
+        h = Header(GroundTemperature(), 'C', AnalysisPeriod(),
+                   {'depth': 0.75, 'soil conductivity': '', 'soil density': '', 'soil specific heat': ''})
+        return {0.75: MonthlyCollection(h, [float(10 + i + variant) for i in range(12)], list(range(12)))}
+    if setter in ('comments_1', 'comments_2'):
+        return 'c18 comment %d' % variant
+    if setter in ('daylight_savings_start', 'daylight_savings_end'):
+        return ['3/10', '11/3', '4/1'][variant % 3]
+    raise ValueError('unknown EPW setter ' + setter)
+
+
+EPW_SETTERS = ['typical_weeks', 'extreme_hot_weeks', 'extreme_cold_weeks', 'location', 'metadata',
+               'heating_design_condition_dictionary', 'cooling_design_condition_dictionary',
+               'extreme_design_condition_dictionary', 'monthly_ground_temperature']
+# plain public attributes that the header import assigns (no setter code at all)
+EPW_PLAIN_ATTRS = ['comments_1', 'comments_2', 'daylight_savings_start', 'daylight_savings_end']
+EPW_SETTER_READS = ['location', 'metadata', 'is_leap_year', 'header', 'typical_weeks', 'extreme_hot_weeks',
+                    'extreme_cold_weeks', 'heating_design_condition_dictionary',
+                    'cooling_design_condition_dictionary', 'extreme_design_condition_dictionary',
+                    'monthly_ground_temperature', 'annual_heating_design_day_996', 'ashrae_climate_zone',
+                    'dry_bulb_temperature', 'comments_1', 'comments_2', 'daylight_savings_start',
+                    'daylight_savings_end']
+
+
+def _check_epw_setter_first(inp):
+    from ladybug.epw import EPW
+    path = os.path.join(EPW_DIR, inp['file'])
+    setter, variant = inp['setter'], inp['variant']
+    S = SPECS['EPW']
+    sig = {'class': 'EPW', 'setter': setter, 'file': inp['file']}
+    # reference: the header is imported first (a read), then the setter is used
+    ref = EPW(path)
+    ref.location
+    setattr(ref, setter, _epw_value(setter, variant))
+    # the setter is the first thing used on a fresh object; reads follow
+    obj = EPW(path)
+    arg = _epw_value(setter, variant)
+    before = canon(arg)
+    setattr(obj, setter, arg)
+    reads = list(inp['reads']) + [setter, 'header']
+    for name in reads:
+        got, want = do_read(S, obj, name), do_read(S, ref, name)
+        if got != want:
+            return {'required': '%s after `%s = value` as first operation equals that of an EPW whose header was '
+                                'imported before the same call: %s' % (name, setter, json.dumps(want)[:300]),
+                    'observed': json.dumps(got)[:300], 'sig': dict(sig, kind='differs-from-read-first', attr=name)}
+        if canon(arg) != before:
+            return {'required': 'the argument handed to the setter is unchanged: %s' % json.dumps(before)[:300],
+                    'observed': json.dumps(canon(arg))[:300], 'sig': dict(sig, kind='argument-mutated', attr=name)}
+    return None
+
+
+# ---------------------------------------------------------------------------------------------
+# process-fresh reference values (for cross-object histories): a helper process that has imported
+# ladybug but never built an object forks one child per request, so no memo of any kind
+# (instance, class or module level) can carry over from another object.
+
+_FRESH = {'proc': None}
+
+
+def _fresh_server_main():
+    import sys
+    sys.path.insert(0, REPO)
+    for S in SPECS.values():
+        try:
+            S.cls()
+        except Exception:
+            pass
+    out = sys.stdout
+    for line in sys.stdin:
+        line = line.strip()
+        if not line:
+            continue
+        req = json.loads(line)
+        r, w = os.pipe()
+        pid = os.fork()
+        if pid == 0:
+            res = {}
+            try:
+                os.close(r)
+                S = SPECS[req['class']]
+                for name in req['names']:
+                    try:
+                        res[name] = do_read(S, S.build(req['spec']), name)
+                    except Exception as e:
+                        res[name] = ['build-raises', type(e).__name__]
+                with os.fdopen(w, 'w') as f:
+                    f.write(json.dumps(res))
+            finally:
+                os._exit(0)
+        os.close(w)
+        with os.fdopen(r) as f:
+            data = f.read()
+        os.waitpid(pid, 0)
+        out.write((data or '{}').replace('\n', ' ') + '\n')
+        out.flush()
+
+
+def _fresh_eval(cname, spec, names):
+    """First-read values of `names` on objects of (class, spec) evaluated in a fresh process."""
+    import subprocess
+    import sys
+    import atexit
+    if _FRESH['proc'] is None or _FRESH['proc'].poll() is not None:
+        env = dict(os.environ, LADYBUG_REPO=REPO, PYTHONPATH=core.ROOT)
+        _FRESH['proc'] = subprocess.Popen(
+            [sys.executable, '-c', 'from harness.props import c18; c18._fresh_server_main()'],
+            stdin=subprocess.PIPE, stdout=subprocess.PIPE, stderr=subprocess.DEVNULL, env=env, cwd=core.ROOT,
+            universal_newlines=True)
+        atexit.register(_fresh_stop)
+    p = _FRESH['proc']
+    p.stdin.write(json.dumps({'class': cname, 'spec': spec, 'names': list(names)}) + '\n')
+    p.stdin.flush()
+    line = p.stdout.readline()
+    if not line:
+        raise core.MachineryError('C18 process-fresh helper died')
+    return json.loads(line)
+
+
+def _fresh_stop():
+    p = _FRESH['proc']
+    if p is not None and p.poll() is None:
+        try:
+            p.stdin.close()
+            p.wait(timeout=5)
+        except Exception:
+            p.kill()
+    _FRESH['proc'] = None
+
+
+def _check_cross(inp):
+    """Several objects of one class with different settings in one process, read in an interleaved
+    order; every read must equal the first read in a fresh process."""
+    S = SPECS[inp['class']]
+    objs = [S.build(sp) for sp in inp['specs']]
+    want = {}
+    for i, sp in enumerate(inp['specs']):
+        names = sorted(set(n for j, n in inp['order'] if j == i))
+        if names:
+            want[i] = _fresh_eval(inp['class'], sp, names)
+    for i, name in inp['order']:
+        got = json.loads(json.dumps(do_read(S, objs[i], name)))
+        if got != want[i][name]:
+            return {'required': '%s of object %d (%s) equals its value in a fresh process: %s'
+                                % (name, i, json.dumps(inp['specs'][i]), json.dumps(want[i][name])[:300]),
+                    'observed': json.dumps(got)[:300],
+                    'sig': {'class': inp['class'], 'attr': name, 'kind': 'depends-on-other-object'}}
+    return None
+
+
 def check_case(op, inp):
+    if op == 'epw_setter_first':
+        return _check_epw_setter_first(inp)
+    if op == 'cross':
+        return _check_cross(inp)
     if op == 'reads':
         # one object, a sequence of public reads; each must equal the first read on a fresh object
         S = SPECS[inp['class']]
@@ -1037,6 +1228,20 @@ CORPUS = [
                  'ops': [['set', 'met_roughness_length', 0.5], ['read', 'calculate_wind(5.5,10)'],
                          ['set', 'meteorological_height', 30.5], ['set', 'terrain', 'water']],
                  'check': ['calculate_wind(5.5,10)', 'calculate_wind(1,100.5)', 'roughness_length']}),
+    # two periods covering the same minutes of the year with different leap flags (class-level memo shape)
+    ('cross', {'class': 'AnalysisPeriod',
+               'specs': [{'ap': [3, 2, 0, 4, 1, 23, 1, False]}, {'ap': [3, 1, 0, 3, 31, 23, 1, True]},
+                         {'ap': [1, 10, 0, 1, 20, 23, 1, False]}, {'ap': [1, 10, 0, 1, 20, 23, 1, True]}],
+               'order': [[0, 'datetimes'], [1, 'datetimes'], [3, 'moys'], [2, 'datetimes'], [3, 'datetimes'],
+                         [1, 'moys'], [0, 'doys_int']]}),
+    ('cross', {'class': 'AnalysisPeriod',
+               'specs': [{'ap': [6, 1, 0, 6, 30, 23, 1, True]}, {'ap': [6, 2, 0, 7, 1, 23, 1, False]}],
+               'order': [[0, 'len'], [0, 'hoys'], [1, 'datetimes'], [0, 'datetimes']]}),
+    # a header setter as the first operation on a fresh EPW, the lazy import afterwards
+    ('epw_setter_first', {'file': 'chicago.epw', 'setter': 'typical_weeks', 'variant': 0,
+                          'reads': ['location', 'typical_weeks']}),
+    ('epw_setter_first', {'file': 'chicago.epw', 'setter': 'extreme_hot_weeks', 'variant': 0,
+                          'reads': ['dry_bulb_temperature', 'is_leap_year']}),
     ('wind_identity', {'t': 'city', 'mt': 'country', 'mh': 10, 'll': False, 'v': 5.5}),
     ('wind_identity', {'t': 'city', 'mt': 'country', 'mh': 10, 'll': True, 'v': 5.5}),
     # known finding: meteorological height below the roughness length is accepted by the setters
@@ -1111,11 +1316,122 @@ def _gen_pairs(ctx, cname, limit):
             yield 'setters', {'class': cname, 'spec': spec, 'ops': [['read', x], ['set', sn, v]], 'check': [x]}
 
 
+
+def _gen_epw_setter_first(ctx, full):
+    rng = ctx.rng
+    files = [f for f in EPW_FILES if f != 'los_angeles_no_leap_field.epw']
+    for setter in EPW_SETTERS + EPW_PLAIN_ATTRS:
+        for variant in ((0, 1, 2) if full else (0, rng.choice([1, 2]))):
+            reads = rng.sample([r for r in EPW_SETTER_READS if r != 'dry_bulb_temperature'], 3)
+            if rng.random() < (0.5 if full else 0.12):
+                reads.insert(rng.randrange(len(reads) + 1), 'dry_bulb_temperature')
+            ctx.count('epw_setter_first:%s' % setter)
+            yield 'epw_setter_first', {'file': rng.choice(files), 'setter': setter, 'variant': variant,
+                                       'reads': reads}
+
+
+def _ap_collisions(rng):
+    """pairs / triples of analysis periods that cover the same minutes of the year but differ in the
+    leap flag, plus neighbours differing in timestep or hour window"""
+    dim = [31, 28, 31, 30, 31, 30, 31, 31, 30, 31, 30, 31]
+    out = []
+    # same dates before 29 Feb, both leap flags
+    m = rng.choice([1, 1, 2])
+    d1 = rng.randrange(1, 15)
+    d2 = d1 + rng.randrange(1, 12)
+    ts = rng.choice([1, 1, 2, 4])
+    sh, eh = rng.choice([(0, 23), (0, 23), (8, 17), (6, 12)])
+    out.append([[m, d1, sh, m, d2, eh, ts, False], [m, d1, sh, m, d2, eh, ts, True],
+                [m, d1, sh, m, d2, eh, rng.choice([1, 2, 3]), rng.random() < 0.5]])
+    # after February: leap [D1, D2] has the moys of non-leap [D1 + 1 day, D2 + 1 day]
+    m = rng.randrange(3, 12)
+    d1 = rng.randrange(1, 10)
+    n = rng.randrange(5, 40)
+
+    def shift(mo, da, k):
+        da += k
+        while da > dim[mo - 1]:
+            da -= dim[mo - 1]
+            mo += 1
+        return mo, da
+    e_m, e_d = shift(m, d1, n)
+    if e_m <= 12:
+        s2 = shift(m, d1, 1)
+        e2 = shift(e_m, e_d, 1)
+        if e2[0] <= 12:
+            ts = rng.choice([1, 1, 2])
+            trip = [[m, d1, 0, e_m, e_d, 23, ts, True], [s2[0], s2[1], 0, e2[0], e2[1], 23, ts, False],
+                    [m, d1, 0, e_m, e_d, 23, ts, False]]
+            rng.shuffle(trip)
+            out.append(trip)
+    return out
+
+
+def _gen_cross(ctx, full):
+    rng = ctx.rng
+    ap_names = ['datetimes', 'moys', 'hoys', 'doys_int', 'months_int', 'len', 'hoys_int']
+    for _ in range(12 if full else 3):
+        for specs in _ap_collisions(rng):
+            order = []
+            for i in rng.sample(range(len(specs)), len(specs)):
+                order.append([i, rng.choice(['datetimes', 'moys', 'len', 'hoys'])])
+            for i in range(len(specs)):
+                order.append([i, 'datetimes'])
+                order.append([i, rng.choice(ap_names)])
+            ctx.count('cross:AnalysisPeriod')
+            yield 'cross', {'class': 'AnalysisPeriod', 'specs': [{'ap': a} for a in specs], 'order': order}
+    # collections / plots built on colliding periods
+    for cname, k in (('HourlyContinuousCollection', 2), ('HourlyPlot', 1)):
+        for _ in range(k * (4 if full else 1)):
+            m = rng.choice([1, 2])
+            d1 = rng.randrange(1, 12)
+            d2 = d1 + rng.randrange(2, 9)
+            S = SPECS[cname]
+            specs = []
+            for leap in rng.sample([False, True], 2):
+                sp = S.gen(rng)
+                sp['ap'] = [m, d1, 0, m, d2, 23, 1, leap]
+                sp['seed'] = 5
+                specs.append(sp)
+            names = ['datetimes'] if cname != 'HourlyPlot' else ['month_labels', 'colored_mesh2d', 'values',
+                                                                 'hour_lines2d', 'title_text']
+            order = [[i, n] for n in names for i in (0, 1)]
+            ctx.count('cross:%s' % cname)
+            yield 'cross', {'class': cname, 'specs': specs, 'order': order}
+    # two objects with different settings of the other cached classes, reads interleaved
+    for cname, k in (('WindRose', 2), ('MonthlyChart', 1), ('PsychrometricChart', 1), ('Compass', 2),
+                     ('WindProfile', 2), ('SQLiteResult', 2), ('ViewSphere', 1), ('EPW', 1)):
+        S = SPECS[cname]
+        for _ in range(k * (3 if full else 1)):
+            specs = [S.gen(rng), S.gen(rng)]
+            if cname == 'EPW':
+                files = rng.sample([f for f in EPW_FILES if f != 'los_angeles_no_leap_field.epw'], 2)
+                specs = [{'file': f} for f in files]
+                names = [['location', 'typical_weeks', 'header', 'is_leap_year', 'monthly_ground_temperature']] * 2
+            else:
+                names = []
+                for sp in specs:
+                    nm = all_reads(S, sp)
+                    if cname == 'ViewSphere':
+                        nm = ['tregenza_solid_angles', 'reinhart_solid_angles', 'tregenza_dome_vectors']
+                    names.append(rng.sample(nm, min(len(nm), 5 if not full else 8)))
+            order = [[i, n] for i in (0, 1) for n in names[i]]
+            rng.shuffle(order)
+            ctx.count('cross:%s' % cname)
+            yield 'cross', {'class': cname, 'specs': specs, 'order': order}
+
+
 def _oracle_cases(ctx):
     rng = ctx.rng
     for c in CORPUS:
         yield c
     full = (not ctx.quick) or ctx.searching
+    # cross-object histories first: their reference is evaluated in a fresh process, the objects under
+    # test live in this (used) process
+    for c in _gen_cross(ctx, full):
+        yield c
+    for c in _gen_epw_setter_first(ctx, full):
+        yield c
     for cname in ('WindRose', 'MonthlyChart', 'Compass', 'WindProfile'):
         for c in _gen_pairs(ctx, cname, None if full else 40):
             yield c
@@ -1145,4 +1461,7 @@ def _oracle_cases(ctx):
 
 
 def oracle(ctx):
-    run_oracle_cases(ctx, _oracle_cases(ctx), check_case)
+    try:
+        run_oracle_cases(ctx, _oracle_cases(ctx), check_case)
+    finally:
+        _fresh_stop()
